@@ -2,6 +2,9 @@
 // working tree as `#[cfg(kani)] #[path = ".."] mod verif_k_deque;` (a child module: private fields are visible, the file
 // itself is untouched).
 //
+// The assertions of each window_* harness are mirrored, line by line, by the predicate `window_<op>` of the Verus lemma unit
+// contracts/deque_lift.rs, which proves that any heap change satisfying them turns a list representing the sequence `s` into
+// one representing `s.remove(i)` / `s.skip(1)` / `s.push(y)` / `s.remove(i).push(s[i])` (the assumed `Deque` contracts).
 // window_* : loop-free LOCAL-WINDOW contracts of one list operation: real nodes P <-> X <-> N with symbolic presence of
 //            P / N, dangling outer pointers that must never be dereferenced, symbolic head/tail/cursor/len. An operation
 //            only touches its window, so each is a complete proof of the local pointer contract for lists of every length.
